@@ -340,7 +340,7 @@ fn run(rec: &mut Rec) {
     }
     // C03's restart probe, judged on the serial stream: the blocks transmit their bank's byte
     {
-        let step = rec.ctx.tier.pick(0x20000usize, 0x4000);
+        let step = rec.ctx.tier.pick(0x20000usize, 0x8000);
         let mut k = 0usize;
         let mut target = 0x400000usize;
         while target < 0x7f0000 {
